@@ -719,6 +719,21 @@ def c16(run, selftest=True):
         if r2.get("prop_mismatch", 0) == 0:
             raise ToolError("selftest(body): a dropped expected failure was not detected")
         run.notes.append("selftest replay-corruption (one expected member failure dropped): detected")
+    # the `generics` member / FromGenerics: parameter lists drawn one at a time
+    gres = run.tlc("Generics", simple_cfg("Gen_OneToOne Gen_TypeParams Gen_Infallible EmitDone", "  MaxParams = %d\n" % (3 if q else 4)), "generics", workers=4)
+    run.require_tlc_ok(gres, "Generics")
+    gr = run.vh("replay", "generics", gres["out"], timeout=3000)
+    run.add_replay_result("generics", gr)
+    if selftest:
+        def swap_kind(case):
+            ks = case["expect"]["kinds"]
+            if case["expect"]["ok"] and "lifetime" in ks and "type" in ks:
+                i, j = ks.index("lifetime"), ks.index("type")
+                ks[i], ks[j] = ks[j], ks[i]
+                return True
+            return False
+        tagged_selftest(run, "generics", gres["out"], swap_kind, "expect a lifetime where a type parameter was declared", ["replay", "generics"])
+    os.remove(gres["out"])
     os.remove(res["out"])
     run.assumptions = ["member failures are provoked by omitting a required field-level attribute of the harness's member receivers",
                        "visibility, types, generics, discriminants and attributes are drawn from fixed pools per case; parts are compared as token strings (blanks and trailing commas aside)"]
@@ -728,7 +743,10 @@ def c16(run, selftest=True):
         "with 1..2 fields, unions) x every assignment of failing members: TLC checks the conversion machine against the declarative verdict, entry order and set of reported failures; "
         "each body is rendered with varying visibility / types / generics / where-clauses and fed to 63 FromDeriveInput receivers (every subset of ident / vis / generics / attrs / data, "
         "generics as syn, ast, WithOriginal, SpannedValue, Result; data and attrs plain or with a custom converter) and each member to the 16 subsets of FromField / FromVariant / FromTypeParam magic fields; "
-        "every part is compared with the input's own. A case is one body.")
+        "every part is compared with the input's own. A case is one body. Variants of every style carry discriminants, braced / parenthesised variants may be empty. "
+        "Generics: parameter lists (type parameters with clean / absent / faulty attributes, lifetimes, const parameters) x where clause x three parameter receivers x direct / `generics` member "
+        "x a further mistake in the receiver's own attribute: one converted entry per parameter in order, type_params() the subsequence of type parameters, the where clause kept, "
+        "the first failing parameter reported and no error placed anywhere else.")
 
 
 # =====================================================================================================
@@ -959,6 +977,20 @@ def c13(run, selftest=True):
             return False
         tagged_selftest(run, "syntargets", res["out"], flip, "expect a quoted path to be rejected", ["replay", "syntargets"])
     os.remove(res["out"])
+    # sequence-valued targets: element sequences drawn one at a time through every carrier
+    q = run.tier == "quick"
+    res = run.tlc("SeqTargets", simple_cfg("Seq_FirstError EmitDone", "  MaxLen = %d\n" % (3 if q else 4)), "seqtargets", workers=4)
+    run.require_tlc_ok(res, "SeqTargets")
+    r = run.vh("replay", "sequences", res["out"], timeout=3000)
+    run.add_replay_result("sequences", r)
+    if selftest:
+        def flip2(case):
+            if len(case["expect"]["vs"]) >= 2:
+                case["expect"]["vs"].reverse()
+                return case["expect"]["vs"][0] != case["expect"]["vs"][-1]
+            return False
+        tagged_selftest(run, "sequences", res["out"], flip2, "expect the elements in reverse order", ["replay", "sequences"])
+    os.remove(res["out"])
     run.assumptions = ["the grammars of paths, expressions, types, visibility and where-clauses are syn's: the fragment table (expression variant when bare, accepting grammars) is computed with syn by the harness",
                        "invisible groups are built around the parsed value with default (call-site) delimiters"]
     return run.finish(
@@ -966,7 +998,9 @@ def c13(run, selftest=True):
         "31 syntax-valued targets (Expr, Path, Ident, IdentString, ExprArray / ExprPath / ExprRange, Callable, where-predicates, Lit and six literal kinds, the 15 from_syn_parse types) x 52 fragments "
         "(paths with leading ::, turbofish, raw identifiers, keywords; binary / call / closure / block / array / range / tuple / macro expressions; literals of every kind; types; visibility; predicates) "
         "x bare / quoted x 0..2 invisible groups: TLC checks the transcribed dispatch against the declarative accept matrix; every case is converted by the real impl and its token string compared with "
-        "the fragment as written or with the string's contents parsed directly by syn; plus the two expression helpers, whole meta items, path lists, vectors of literals and numeric arrays. A case is one (target, fragment, spelling, groups).")
+        "the fragment as written or with the string's contents parsed directly by syn; plus the two expression helpers, whole meta items, path lists, vectors of literals and numeric arrays. A case is one (target, fragment, spelling, groups). "
+        "SeqTargets: Vec<u8> / Vec<u64> / Vec<LitInt|LitStr|LitBool> / PathList through seven carriers (list, bare array, quoted array, word, three scalar literals) with element sequences up to the bound drawn "
+        "from 12 element classes: the value is the element-wise conversion in source order, a rejected input reports exactly its first unacceptable element, at that element; the machine's message and span are compared as model.")
 
 
 # =====================================================================================================
